@@ -78,6 +78,11 @@ class IterUnit(FunctionUnit):
             "cast": Builtin("cast", lambda ip, ty, v: v),
         }
 
+    def obj_truth(self, t):
+        """an opaque element / initial value is falsy when it is None and otherwise has an arbitrary, fixed truth value
+        (0, "", () are falsy objects that are not None)"""
+        return z3.And(t != 0, TRUTHY(t))
+
     # -- the abstract source ------------------------------------------------------------------------------------------
     def new_source(self, ip, name="xs"):
         st = ip.st
